@@ -65,6 +65,11 @@ def run(pid, tier):
         s["limit_ms"] = 40 if any(x["k"] == "timeout" for x in s["script"]) else 0
         s["where"] = "co" if (i % 7 == 0 and not s["nonblock"]) else "thread"
         s["timeout_ms"] = 6000
+        # errno around successful kernel calls: a real kernel leaves it alone (the scripted one does too);
+        # every third scenario starts with a stale error number in errno, every fifth lets successful
+        # kernel calls leave an arbitrary one behind (POSIX allows both)
+        s["errno_entry"] = [0, 4, 11][i % 3]
+        s["errno_garbage"] = (i % 5 == 2)
     tpath = drive(bindir, "nio", scs, wd, "nreset", "nend", timeout=3400)
     info = validate_full("Trace_Nio", tpath)
     byid = {s["id"]: s for s in scs}
